@@ -78,6 +78,11 @@ def line(req):
         _, P, W, args, kw, ps = req
         return 'deccall %s %s %s %s %s' % (core.names_line(P), core.names_line(W), vals_line((SELF_TOK,) + tuple(args)),
                                         kw_line(kw), core.params_line((core.P('self', 'pk'),) + tuple(ps)))
+    if op in ('deccallend2m', 'deccallstart2m'):   # start= / end= form stacked with an explicit selection, bound method
+        _, order, st, other, args, kw, ps = req
+        sel = tuple(other) + (('self',) if op == 'deccallstart2m' else ())
+        return '%s %d %s %s %s %s' % (op[:-1], core.NAMES.id(st), core.names_line(sel), vals_line((SELF_TOK,) + tuple(args)),
+                                      kw_line(kw), core.params_line((core.P('self', 'pk'),) + tuple(ps)))
     if op in ('deccallendm', 'deccallstartm'):     # bound method of the start= / end= forms
         _, st, extra, args, kw, ps = req
         return '%s %d %s %s %s %s' % (op[:-1], core.NAMES.id(st), core.names_line(extra), vals_line((SELF_TOK,) + tuple(args)),
@@ -132,7 +137,8 @@ def parse_model(req, ml):
         return ('ok', o(toks[1]), o(toks[2]), o(toks[3]), o(toks[4]), toks[5] == 'true', int(toks[6]))
     if op == 'cache':
         return ('ok', tuple(int(x) for x in toks[1].split('.')) if toks[1] != '_' else ())
-    if op in ('bindcall', 'bindcallsig', 'deccall', 'deccallm', 'deccallendm', 'deccallstartm', 'deccallst'):
+    if op in ('bindcall', 'bindcallsig', 'deccall', 'deccallm', 'deccallendm', 'deccallstartm', 'deccallst',
+              'deccallend2m', 'deccallstart2m'):
         if toks[0] == 'typeerror':
             return ('typeerror',)
         if toks[0] == 'err':
@@ -140,7 +146,7 @@ def parse_model(req, ml):
         named = _pairs(toks[1])
         va = None if toks[2] == '-' else tuple(int(x) for x in toks[2].split('.')) if toks[2] != '_' else ()
         vk = None if toks[3] == '-' else _pairs(toks[3])
-        if op in ('deccallm', 'deccallendm', 'deccallstartm'):
+        if op in ('deccallm', 'deccallendm', 'deccallstartm', 'deccallend2m', 'deccallstart2m'):
             named = tuple((k, v) for k, v in named if k != core.NAMES.id('self'))
         return ('bound', named, va, vk)
     if op == 'prepare':
